@@ -179,3 +179,63 @@ func c04SingleFault() []c04SF {
 	}
 	return out
 }
+
+// c04BytePos: a clean template and the index of ONE byte that the lane replaces by each of the
+// 256 byte values.
+type c04BytePos struct {
+	class string
+	tmpl  string
+	pos   int
+	head  bool // run for HEAD as well
+}
+
+// c04BytePositions: every position class of every numeric / token field and line end the response
+// reader parses: chunk-size digits (first, middle, last, single), extension start and inside,
+// every CR and LF (chunk-size line, after chunk data, last-chunk line, end of trailers, status
+// line, header line, blank line, trailer line), the last-chunk "0", Content-Length digits and
+// the bytes around them, EVERY byte of the status line (version letters and digits, slash, dot,
+// separators, code digits, reason), header-name bytes and the colon, Transfer-Encoding and
+// Connection value bytes, trailer key/colon/value bytes.
+func c04BytePositions() []c04BytePos {
+	var out []c04BytePos
+	at := func(class, pre, field, post string, idx []int, head bool) {
+		for _, i := range idx {
+			out = append(out, c04BytePos{class: class, tmpl: pre + field + post, pos: len(pre) + i, head: head})
+		}
+	}
+	rest := "HTTP/1.1 200 OK\r\nContent-Length: 2\r\n\r\nhi"
+	ch := "HTTP/1.1 200 OK\r\nTransfer-Encoding: chunked\r\n\r\n"
+	data26 := "abcdefghijklmnopqrstuvwxyz"
+	// "01a;x=y\r\n": first, middle, last digit, ';', ext bytes, CR, LF
+	at("chunk-size-line", ch, "01a;x=y\r\n", data26+"\r\n0\r\n\r\n"+rest, []int{0, 1, 2, 3, 4, 5, 6, 7, 8}, false)
+	at("chunk-size-single", ch, "5\r\n", "hello\r\n0\r\n\r\n"+rest, []int{0, 1, 2}, false)
+	at("chunk-size-2nd-chunk", ch+"3\r\nabc\r\n", "1a\r\n", data26+"\r\n0\r\n\r\n"+rest, []int{0, 1}, false)
+	at("after-data", ch+"5\r\nhello", "\r\n", "0\r\n\r\n"+rest, []int{0, 1}, false)
+	at("last-chunk", ch+"5\r\nhello\r\n", "0\r\n\r\n", rest, []int{0, 1, 2, 3, 4}, false)
+	at("last-chunk-padded", ch+"5\r\nhello\r\n", "000\r\n\r\n", rest, []int{0, 1, 2}, false)
+	at("trailer-line", ch+"5\r\nhello\r\n0\r\n", "X-T: v\r\n\r\n", rest, []int{0, 1, 2, 3, 4, 5, 6, 7, 8, 9}, false)
+	// Content-Length: 012 with a long enough body behind it
+	body := strings.Repeat("x", 1000)
+	at("content-length", "HTTP/1.1 200 OK\r\n", "Content-Length: 012\r\n", "\r\n"+body, []int{14, 15, 16, 17, 18, 19, 20}, true)
+	at("content-length-single", "HTTP/1.1 200 OK\r\n", "Content-Length: 5\r\n", "\r\nhello"+rest, []int{16}, true)
+	// every byte of the status line
+	all := func(n int) []int {
+		idx := make([]int, n)
+		for i := range idx {
+			idx[i] = i
+		}
+		return idx
+	}
+	at("status-line", "", "HTTP/1.1 200 OK\r\n", "Content-Length: 5\r\n\r\nhello"+rest, all(17), true)
+	at("status-line-chunked", "", "HTTP/1.1 200 OK\r\n", "Transfer-Encoding: chunked\r\n\r\n5\r\nhello\r\n0\r\n\r\n"+rest, []int{5, 6, 7, 9, 10, 11}, false)
+	// header name, colon, blank line
+	at("header-name", "HTTP/1.1 200 OK\r\n", "X-Key: v\r\n", "Content-Length: 5\r\n\r\nhello"+rest, []int{0, 1, 2, 4, 5, 6, 7, 8, 9}, false)
+	at("blank-line", "HTTP/1.1 200 OK\r\nContent-Length: 5\r\n", "\r\n", "hello"+rest, []int{0, 1}, false)
+	at("cl-name", "HTTP/1.1 200 OK\r\n", "Content-Length", ": 5\r\n\r\nhello"+rest, []int{0, 7, 8, 13}, false)
+	at("te-value", "HTTP/1.1 200 OK\r\nTransfer-Encoding: ", "chunked", "\r\n\r\n5\r\nhello\r\n0\r\n\r\n"+rest, []int{0, 3, 6}, false)
+	at("te-name", "HTTP/1.1 200 OK\r\n", "Transfer-Encoding", ": chunked\r\n\r\n5\r\nhello\r\n0\r\n\r\n"+rest, []int{0, 8, 9, 16}, false)
+	at("connection-value", "HTTP/1.1 200 OK\r\nConnection: ", "close", "\r\nContent-Length: 5\r\n\r\nhello"+rest, []int{0, 2, 4}, false)
+	at("connection-value-1.0", "HTTP/1.0 200 OK\r\nConnection: ", "keep-alive", "\r\nContent-Length: 5\r\n\r\nhello"+rest, []int{0, 4, 9}, false)
+	at("trailer-decl", "HTTP/1.1 200 OK\r\nTransfer-Encoding: chunked\r\nTrailer: ", "X-T", "\r\n\r\n5\r\nhello\r\n0\r\nX-T: v\r\n\r\n"+rest, []int{0, 1, 2}, false)
+	return out
+}
